@@ -124,3 +124,73 @@ def m_syn_ptr_get(ex, f, a):
 def m_syn_children_iter(ex, f, a):
     from .models_coll import m_iter_method
     return m_iter_method(ex, f, a)
+
+# ----------------------------------------------------------------------------- red tree from a finished builder, token_at_offset (with rowan's own contract), line_index
+@pattern(r'(^|::)SyntaxNode(<.*>)?::new_root$', 'g')
+def m_syn_new_root(ex, f, a):
+    b = _self(ex, a[0])
+    if not hasattr(b, 'ops'): raise Unsupported('new_root on %r' % (b,))
+    lens = []
+    for op in b.ops:
+        if op[0] == 'token':
+            t = ex.deref(op[2]) if not isinstance(op[2], Str) else op[2]
+            if any(is_sym(c) for c in t.chars): raise Unsupported('new_root: symbolic token text')
+            lens.append(sum(len(chr(c).encode()) for c in t.chars))
+    return tree_from_ops([(op[0], op[1], (ex.deref(op[2]) if not isinstance(op[2], Str) else op[2])) if op[0] == 'token' else op for op in b.ops], lens)
+
+def _leaf_tokens(n, out):
+    for c in n.children:
+        if isinstance(c, SynToken): out.append(c)
+        else: _leaf_tokens(c, out)
+    return out
+
+@pattern(r'(^|::)SyntaxNode(<.*>)?::token_at_offset$', 'g')
+def m_syn_token_at_offset(ex, f, a):
+    """rowan 0.16 cursor.rs: asserts range.start <= offset <= range.end ("Bad offset"), None on an empty tree, otherwise the one or two
+    non-empty leaf tokens whose closed range contains the offset"""
+    n = _self(ex, a[0]); off = a[1]
+    while isinstance(off, Agg): off = off.fields[0]
+    if not isinstance(n, SynNode): raise Unsupported('token_at_offset on %r' % (n,))
+    inside = ex.branch_bool(z3.And(off >= n.start, off <= n.end) if is_sym(off) else (n.start <= off <= n.end))
+    if not inside: raise Panic('rowan contract: token_at_offset: Bad offset: range %s..%s' % (n.start, n.end))
+    if n.start == n.end: return Agg('TokenAtOffset', 0, [])
+    o = ex.concretize(off, 'token_at_offset offset')
+    hit = [t for t in _leaf_tokens(n, []) if t.start != t.end and t.start <= o <= t.end]
+    if len(hit) == 1: return Agg('TokenAtOffset', 1, [hit[0]])
+    if len(hit) == 2: return Agg('TokenAtOffset', 2, [hit[0], hit[1]])
+    raise Panic('rowan: token_at_offset unreachable!() - %d tokens at offset %d' % (len(hit), o))
+
+class LineIdx:
+    def __init__(s, starts): s.starts = starts
+@pattern(r'(^|::)LineIndex::new$', 'g')
+def m_line_index_new(ex, f, a):
+    t = _self(ex, a[0])
+    if any(is_sym(c) for c in t.chars): raise Unsupported('LineIndex::new on a symbolic text')
+    starts = []; pos = 0
+    for c in t.chars:
+        pos += len(chr(c).encode())
+        if c == 10: starts.append(pos)
+    return LineIdx(starts)
+@pattern(r'(^|::)LineIndex::offset$', 'g')
+def m_line_index_offset(ex, f, a):
+    """line-index 0.1.2: start_offset(line) = 0 for line 0, newlines.get(line - 1) otherwise; result start + col (u32 addition of text-size,
+    overflow-checked in the dev profile)"""
+    li = _self(ex, a[0]); lc = a[1]; line, col = lc.fields[0], lc.fields[1]
+    opts = [(line == 0, 0)] + [(line == i + 1, s_) for i, s_ in enumerate(li.starts)] + [(line > len(li.starts), None)]
+    st = ex.choose(opts) if is_sym(line) else (0 if line == 0 else (li.starts[line - 1] if line - 1 < len(li.starts) else None))
+    if st is None: return NONE()
+    r_ = st + col
+    if is_sym(r_):
+        if not ex.branch_bool(r_ <= 2**32 - 1): raise Panic('text-size: TextSize + TextSize overflows u32 (attempt to add with overflow)')
+    elif r_ > 2**32 - 1: raise Panic('text-size: TextSize + TextSize overflows u32')
+    return some(r_)
+@pattern(r'^(text_size::)?TextSize::(checked_sub|checked_add)$', 'g')
+def m_text_size_checked(ex, f, a):
+    x, y = a[0], a[1]
+    while isinstance(x, Agg): x = x.fields[0]
+    while isinstance(y, Agg): y = y.fields[0]
+    if f.endswith('checked_sub'):
+        okc = x >= y; r_ = x - y
+    else:
+        okc = x + y <= 2**32 - 1; r_ = x + y
+    return some(r_) if ex.branch_bool(okc) else NONE()
